@@ -269,7 +269,7 @@ JudgeDiag(sc, u) ==
 \* judged where the rule tree the test sees is the grammar as written (no -switch rewrite); with -inline the
 \* calls of rules referenced once disappear, so only inclusion is compared there.  A difference is
 \* conformance drift of the transcription, not a violation (a more precise test breaks no property).
-CasJudged(sc, u) == sc.family # "diag" /\ u.gen.hasout /\ u.opt \in {"", "i", "n", "in"}
+CasJudged(sc, u) == sc.family \notin {"diag", "stress", "syntax"} /\ Len(sc.grammar.rules) > 0 /\ u.gen.hasout /\ u.opt \in {"", "i", "n", "in"}
 CasDrift(sc, B, u) ==
   /\ CasJudged(sc, u)
   /\ LET first == sc.grammar.rules[1].name
